@@ -21,8 +21,8 @@ from sim.coordinator import PY, Pool, default_workers, zygote_env  # noqa: E402
 from sim.minimise import Minimiser  # noqa: E402
 
 BUDGET = {  # wall-clock budgets in seconds per phase
-    "quick": {"random": 55, "xproc": 250, "crash_jobs": 10, "sweep_len": 2},
-    "thorough": {"random": 540, "xproc": 4000, "crash_jobs": 10**6, "sweep_len": 3},
+    "quick": {"random": 35, "xproc": 200, "crash_jobs": {"C17": 14, "C18": 80}, "sweep_len": 2},
+    "thorough": {"random": 540, "xproc": 4000, "crash_jobs": {"C17": 10**6, "C18": 10**6}, "sweep_len": 3},
 }
 
 
@@ -168,7 +168,7 @@ def phase_xproc(run, n, hashseeds=("1", "77")):
     compared = 0
     for i, d in sorted(digs.items()):
         vals = list(d.values())
-        if len(vals) < 2 or any(v[0] in ("env_crash", "harness_timeout") for v in vals):
+        if len(vals) < 2 or any(v[0] in ("env_crash", "env_hang", "harness_timeout") for v in vals):
             continue
         compared += 1
         if any(v[:3] != vals[0][:3] for v in vals[1:]):
@@ -214,7 +214,7 @@ def phase_fresh(run, n):
             a = pool.run_one({"id": i, "kind": "seed", "property": run.prop, "run_seed": rs, "tier": run.tier,
                               "deadline": 240})
             b = fresh_interpreter_run(rs, run.prop, hashseed=str(1000 + i), tier=run.tier)
-            if a.get("status") in ("env_crash", ) or b.get("status") == "harness_error":
+            if a.get("status") in ("env_crash", "env_hang") or b.get("status") == "harness_error":
                 continue
             if (a.get("status"), a.get("events_digest"), a.get("results_digest")) != (
                     b.get("status"), b.get("events_digest"), b.get("results_digest")):
